@@ -1,4 +1,6 @@
 import Firebolt.Model.EsSink
+import Firebolt.Generated.Source
+import Firebolt.Expected.Source
 /-!
 # C14 — Elasticsearch sink answers every index request exactly once, within its bounds
 
@@ -366,5 +368,17 @@ theorem chain_answer_is_docResult (max : Nat) (script : Doc → Nat → Outcome)
         obtain ⟨rfl, hs⟩ := he2
         rw [hs]; simp only [he, if_false]
         exact ih (retry + 1) _ d' a (by omega) (by omega) hlater
+
+
+/-! ### the functions this model was transcribed from are unchanged (regenerated from /repo on every run) -/
+theorem source_esSend : GeneratedSrc.esSend = ExpectedSrc.esSend := by rfl
+theorem source_esRun : GeneratedSrc.esRun = ExpectedSrc.esRun := by rfl
+theorem source_esStop : GeneratedSrc.esStop = ExpectedSrc.esStop := by rfl
+theorem source_esBatch : GeneratedSrc.esBatch = ExpectedSrc.esBatch := by rfl
+theorem source_esRetryBulkIndex : GeneratedSrc.esRetryBulkIndex = ExpectedSrc.esRetryBulkIndex := by rfl
+theorem source_esDoBulkIndex : GeneratedSrc.esDoBulkIndex = ExpectedSrc.esDoBulkIndex := by rfl
+theorem source_esHandleErrorResponses : GeneratedSrc.esHandleErrorResponses = ExpectedSrc.esHandleErrorResponses := by rfl
+theorem source_esProcessAsync : GeneratedSrc.esProcessAsync = ExpectedSrc.esProcessAsync := by rfl
+theorem source_esShutdown : GeneratedSrc.esShutdown = ExpectedSrc.esShutdown := by rfl
 
 end Firebolt.C14
